@@ -71,13 +71,25 @@ PASSES = {
 ANALYSIS_ONLY = {"Checker"}
 BOUNDARY = {"Checker": "check_model", "ShapeInference": "infer_shapes"}
 MODES = ["single", "single", "repeat", "sequential", "manager", "functional", "fmanager", "fseq"]
+def _has_graph_reference_attributes(proto) -> bool:
+    if isinstance(proto, (bytes, bytearray)):
+        try:
+            proto = onnx.ModelProto.FromString(bytes(proto))
+        except Exception:  # noqa: BLE001
+            return False
+    try:
+        return any(a.ref_attr_name and a.type in (onnx.AttributeProto.GRAPH, onnx.AttributeProto.GRAPHS) for f in proto.functions for n in f.node for a in n.attribute)
+    except Exception:  # noqa: BLE001
+        return False
+
+
 EXCS = {"ValidationError": lambda: onnx.checker.ValidationError("injected"), "RuntimeError": lambda: RuntimeError("injected"), "MemoryError": lambda: MemoryError("injected")}
 
 
 def gen_case(run_seed: int, tier: str, index: int = 0) -> dict:
     r = Streams(run_seed).rng("workload")
     params = dict(
-        p_graphs=Streams(run_seed).rng("graphs-attr").choice([0.0, 0.0, 0.12, 0.25]), n_nodes=r.choice([2, 4, 6, 9, 14]), n_inputs=r.choice([0, 1, 2, 3]), n_inits=r.choice([0, 1, 2, 4]), n_outputs=r.choice([1, 2, 3]),
+        p_graphs=Streams(run_seed).rng("graphs-attr").choice([0.0, 0.0, 0.12, 0.25]), ref_graph_attrs=Streams(run_seed).rng("ref-graph-attrs").choice([0.0, 0.0, 0.6]), n_nodes=r.choice([2, 4, 6, 9, 14]), n_inputs=r.choice([0, 1, 2, 3]), n_inits=r.choice([0, 1, 2, 4]), n_outputs=r.choice([1, 2, 3]),
         n_functions=r.choice([0, 1, 2]), depth=r.choice([0, 1, 2]), typed=r.random() < 0.8, p_if=r.choice([0.1, 0.3]), p_dup=r.choice([0.2, 0.5]),
         p_const=r.choice([0.1, 0.3]), p_unused=r.choice([0.1, 0.4]), metadata=r.random() < 0.5, big_init=r.random() < 0.4, dup_inits=r.random() < 0.4,
         unused_function=r.random() < 0.3, init_as_input=r.choice([0.0, 0.3, 1.0]), name_noise=r.choice([0.0, 0.0, 0.3]), unsorted=r.random() < 0.25, name_style=r.choice([0, 0, 1]), func_name_overlap=r.choice([0.0, 0.0, 0.5, 1.0]),
@@ -135,6 +147,7 @@ class _Boundary:
         self.armed: dict | None = None
         self.fired = 0
         self.calls = 0
+        self.stubbed = 0
         real = onnx
 
         def check_model(*a, **k):
@@ -149,6 +162,11 @@ class _Boundary:
             if self.armed is not None:
                 self.fired += 1
                 raise EXCS[self.armed["exc"]]()
+            if a and _has_graph_reference_attributes(a[0]):
+                # onnx's C++ shape inference dereferences the (absent) graph of an If whose branches are reference
+                # attributes and kills the process - not ir-py code.  Stub of the boundary: nothing is inferred.
+                self.stubbed += 1
+                return a[0] if not isinstance(a[0], (bytes, bytearray)) else bytes(a[0])
             return real.shape_inference.infer_shapes(*a, **k)
 
         checker_ns = types.SimpleNamespace(**{k: getattr(real.checker, k) for k in dir(real.checker) if not k.startswith("__")})
@@ -422,6 +440,9 @@ def run_case(case: dict) -> dict:
             finally:
                 boundary.armed = None
             fault_fired = boundary.fired > fired0
+            if boundary.stubbed:
+                inc("onnx_shape_inference_stubbed_for_graph_reference_attributes", boundary.stubbed)
+                boundary.stubbed = 0
             if fault_fired:
                 inc("boundary_fault_fired_" + step["fault"]["exc"])
                 nontrivial = True
